@@ -174,3 +174,48 @@ def build(X):
     al.insert_before("Some(condition)", "proof { assert(all_c.skip(0) =~= all_c); }", "proof hint")
 
     return PRELUDE + model + POST + dp.text + "\n" + al.text + "\n} // verus!\nfn main() {}\n"
+
+
+# ----------------------------------------------------------------------------- replay / sweep on the real compiler + SQLite
+SWEEP_DOC = ("n consecutive filters against the single filter with the conjunction of their conditions - with disjunctions, negations and comparisons as conditions, in WHERE and in "
+             "HAVING position - and a pipeline written with `|` against the nested calls: compiled by the real prqlc for sql.sqlite and executed; each pair must return the same rows")
+SETUP = ("create table t(a integer, b integer, c text); insert into t values (1, 10, 'x'), (2, 20, 'y'), (2, 25, 'x'), (3, 30, 'x'), (4, 5, 'y'), (5, 50, null);")
+_PAIRS = [
+    ('from t\nfilter c == "x" && (a > 3 || b > 15)\nsort {a, b}\n', 'from t\nfilter c == "x"\nfilter (a > 3 || b > 15)\nsort {a, b}\n'),
+    ('from t\nfilter (a > 3 || b > 15) && c == "x"\nsort {a, b}\n', 'from t\nfilter (a > 3 || b > 15)\nfilter c == "x"\nsort {a, b}\n'),
+    ('from t\nfilter a > 1 && (b < 30 || c == "x") && (a < 5 || b > 100)\nsort {a, b}\n', 'from t\nfilter a > 1\nfilter (b < 30 || c == "x")\nfilter (a < 5 || b > 100)\nsort {a, b}\n'),
+    ('from t\ngroup c (aggregate {s = sum b, n = count this})\nfilter c != "x" && (s > 40 || n > 2)\nsort c\n', 'from t\ngroup c (aggregate {s = sum b, n = count this})\nfilter c != "x"\nfilter (s > 40 || n > 2)\nsort c\n'),
+    ('from t\nfilter !(a > 2) && (c == "y" || c == null)\nsort {a, b}\n', 'from t\nfilter !(a > 2)\nfilter (c == "y" || c == null)\nsort {a, b}\n'),
+    ('from t\nsort {a, b}\ntake 3\n', 'take 3 (sort {a, b} (from t))\n'),
+]
+
+
+def _rows(src):
+    import replaylib
+    ok, sql = replaylib.compile_prql(src, "sql.sqlite")
+    if not ok:
+        return False, sql[:300]
+    ok2, rows = replaylib.sqlite_rows(SETUP, sql)
+    return ok2, ([list(r) for r in rows] if ok2 else "sqlite error: %s" % rows)
+
+
+def _try(one, split):
+    ok1, r1 = _rows(one)
+    ok2, r2 = _rows(split)
+    return {"obligation": "desugar.FC3", "input": split, "expected": r1 if ok1 else "the rows of: " + one, "observed": r2, "failing": (not ok1) or (not ok2) or r1 != r2,
+            "replay_kind": "pair", "one": one, "split": split}
+
+
+def sweep():
+    return [_try(a, b) for a, b in _PAIRS]
+
+
+def replay(failure):
+    for r in sweep():
+        if r["failing"]:
+            return r
+    return {"failing": False}
+
+
+def rerun(doc):
+    return _try(doc["one"], doc["split"])
